@@ -12,5 +12,5 @@ fi
 python3 tools/genmain.py; (cd lean && lake build) || echo "lake build failed (checks will report it)"
 # Go harness against /repo's working tree (warms the build cache)
 cp /repo/go.sum harness/go.sum
-(cd harness && go test -c -tags verif -o ../build/harness.test .) || echo "harness build failed (checks will report it)"
+(cd harness && for t in $(ls ../props | sed -n "s/^\(C[0-9]*\)\.json$/\1/p"); do lt=$(echo $t | tr A-Z a-z); go test -c -tags "verif $lt" -o ../build/harness.$t.test . ; done) || echo "harness build failed (checks will report it)"
 echo setup done
